@@ -444,6 +444,13 @@ def p_ranges(prop, c):
     if a != x:
         return Violation(prop, "RangesExact", "position ranges %s, expected %s" % (
             dbgparse.ranges_of(a), dbgparse.ranges_of(x)), c)
+    obs = c.act.get("obs")
+    if obs is not None:
+        # PegPosition::position() of an enum override (generated glue): the matched variant's own range
+        want = ";".join("%d..%d" % tuple(a[f]["0"]["position"]["$r"]) for f in ("o", "o2"))
+        if obs != want:
+            return Violation(prop, "RangesExact", "PegPosition::position() of the enum override gives %s, the matched variants' "
+                             "ranges are %s" % (obs, want), c)
     return p_ranges_nest(prop, c)
 
 
